@@ -288,7 +288,8 @@ def replay(ctx, exe, recs):
         cmds, plan, sites = commands(rec)
         items.append((i, cmds))
         plans.append((plan, sites))
-    results, crashes = vlib.run_items(exe, items)
+    # DipoleDipoleInteraction::multiply is an OpenMP loop: one thread, or 16 spinning threads per call on a loaded machine
+    results, crashes = vlib.run_items(exe, items, env={"OMP_NUM_THREADS": "1"})
     ncmp = 0
     for i, rec in enumerate(recs):
         ctx.traces += 1
